@@ -1000,19 +1000,22 @@ impl Context {
                     ErrorType::Unknown,
                 ));
             }
-            Some(VariableExpression::Function(_)) => {
-                // A function with the same name is a conflict as well
-                return Err(TyperError::ValueAlreadyDefined(
-                    name.clone(),
-                    ErrorType::Unknown,
-                    ErrorType::Unknown,
-                ));
-            }
             Some(VariableExpression::EnumValueUntyped(_, _)) => {
                 panic!("Non-untyped enum value ended up in parent scope")
             }
             _ => {}
         };
+
+        // Any other kind of symbol with the same name is a conflict as well (function, namespace, constant buffer)
+        if let Some(symbols) = self.scopes[parent_scope].symbols.get(&name.node)
+            && !symbols.is_empty()
+        {
+            return Err(TyperError::ValueAlreadyDefined(
+                name.clone(),
+                ErrorType::Unknown,
+                ErrorType::Unknown,
+            ));
+        }
 
         // Insert the value into the enum scope
         {
